@@ -78,10 +78,10 @@ var termPool = [][]termDef{
 	{{"", `"+"`}, {"", `"=="`}, {"", `"="`}, {"OP", `"->"`}},
 	{{"", `"("`}, {"", `";"`}, {"", `"{"`}},
 	{{"UNI", `/\x00E9+/`}, {"EURO", `/\x20AC/`}, {"CACTUS", `/\x1F335+/`}, {"MIX", `/\x00E9\x20AC?/`}},
-	{{"STR", `$STRING`}, {"STR", `/'[a-z ]*'/`}},
+	{{"STR", `$STRING`}, {"STR", `/'[a-z ]*'/`}, {"STR", `/"[^"]*"/`}, {"STR", `/'.*'/`}},
 	{{"WS", `$WS`}, {"WS", `/[ \t]+/`}, {"", ""}, {"", ""}},
 	{{"EOL", `/[\x0A\x0D]+/`}, {"", ""}, {"", ""}},
-	{{"COMMENT", `/#[\x20-\x7E]*/`}, {"", ""}, {"", ""}},
+	{{"COMMENT", `/#[\x20-\x7E]*/`}, {"COMMENT", `/%[^%]*%/`}, {"", ""}, {"", ""}},
 	{{"QUOTE", `"'"`}, {"BSL", `"\\"`}, {"", ""}, {"", ""}},
 	// blank characters that ARE tokens of the language (not named WS/EOL/COMMENT), next to blanks no token matches
 	{{"NL", `/\x0A/`}, {"NL", `/\x0D?\x0A/`}, {"TAB", `/\x09+/`}, {"", ""}, {"", ""}, {"", ""}},
@@ -212,6 +212,36 @@ func (a *automaton) munch(in []byte) (toks []refTok, lexErr bool) {
 		i = j
 	}
 	return toks, false
+}
+
+// wideStates returns, for up to n states with at least 100 outgoing symbols, a shortest input of
+// printable characters that leads from the start state into that state.
+func (a *automaton) wideStates(n int) []string {
+	type item struct {
+		s    auto.State
+		path string
+	}
+	seen := map[auto.State]bool{a.start: true}
+	queue := []item{{a.start, ""}}
+	var out []string
+	for len(queue) > 0 && len(out) < n {
+		it := queue[0]
+		queue = queue[1:]
+		if len(a.syms[it.s]) >= 100 && it.path != "" {
+			out = append(out, it.path)
+		}
+		for _, r := range a.syms[it.s] {
+			if r < 0x20 || r == 0x7f {
+				continue
+			}
+			nx := a.trans[it.s][r]
+			if !seen[nx] {
+				seen[nx] = true
+				queue = append(queue, item{nx, it.path + string(r)})
+			}
+		}
+	}
+	return out
 }
 
 // walk produces a lexeme by a random walk from the start state to an accepting state
@@ -559,6 +589,29 @@ func (e Engine) Run(t *simrt.Tape, c simrt.Case, x *simrt.Ctx) *simrt.Result {
 				b.WriteString("   ")
 			}
 			add(em, append([]byte(nil), b.Bytes()...), "random input", "shape:"+shape)
+			// the same input with a character from outside the automaton's alphabet dropped in at a
+			// tape-chosen position (inside a lexeme as often as between two)
+			if raw := b.Bytes(); len(raw) > 0 && t.Chance(1, 2) {
+				at := t.Draw(len(raw) + 1)
+				for at < len(raw) && !utf8.RuneStart(raw[at]) {
+					at++
+				}
+				ins := []string{"é", "日", "😀", "ß", "\u00a0", "Ω", "~", "`", "\x7f", "\x01"}[t.Draw(10)]
+				mut := append(append(append([]byte(nil), raw[:at]...), ins...), raw[at:]...)
+				add(em, mut, fmt.Sprintf("random input with %q inserted at byte %d", ins, at), "shape:"+shape+"+foreign_char")
+			}
+		}
+		// wide states: a state with transitions on (nearly) the whole ASCII table - the inside of a
+		// quoted string, a comment body, "." - is where code generation is tempted to use a catch-all.
+		// Reach each such state by a shortest printable path and feed it a character from outside the
+		// automaton's alphabet.
+		for _, ws := range em.a.wideStates(3) {
+			for _, foreign := range []string{"é", "日", "😀", "\u00a0"} {
+				for _, cont := range []string{"", "a", " ", "\"", "'", "%", "\n"} {
+					in := ws + foreign + cont
+					add(em, []byte(in), fmt.Sprintf("wide state reached by %q, then %q", ws, foreign+cont), "wide:"+em.pkg+":"+foreign)
+				}
+			}
 		}
 		// one long lexeme: more characters than one block of the emitted reader's chunked stack and
 		// than one buffer half, still within what the two halves can hold
